@@ -9,7 +9,8 @@ import re
 from harness import core, sexp
 
 _SEQ = []
-KINDS = ['ok', 'stream', 'ctx', 'static', 'static304', 'redirect', 'notfound', 'wrongmethod', 'boom', 'boombraces', 'ret400braces',
+KINDS = ['ok', 'stream', 'ctx', 'static', 'static304', 'redirect', 'slashredirect_ctl', 'reroute_rewrite', 'reroute_raise_rewrite',
+         'notfound', 'wrongmethod', 'boom', 'boombraces', 'ret400braces',
          'debugboom', 'meta', 'gzip', 'cache',
          'empty', 'ret403', 'reroute', 'reroute_raise', 'unicode_header']
 METHODS = ['GET', 'HEAD', 'POST', 'OPTIONS']
@@ -148,8 +149,11 @@ def build_kind_app(kind, tmpdir, target_kind='plain203'):
               POST('/postonly', lambda: Response('p')), ('/boom', boom), ('/meta', MetaApplication()),
               ('/empty', lambda: Response(b'', status=204)), ('/ret403', lambda: Forbidden()), ('/reroute', RerouteWSGI(target)),
               ('/reroute_raise', reroute_raise), ('/boombraces', boombraces), ('/ret400braces', ret400braces),
+              ('/files/<name>/', lambda name: Response('file ' + name)), ('/rr/<p*>', RerouteWSGI(target)),
+              ('/rrr/<p*>', lambda p: reroute_raise()),
               ('/unicode_header', lambda: Response('x', headers={'X-Thing': 'caf\xe9'}))]
-    return Application(routes, middlewares=mws, debug=(kind == 'debugboom'))
+    return Application(routes, middlewares=mws, debug=(kind == 'debugboom'),
+                       slash_mode='rewrite' if kind.endswith('_rewrite') else 'redirect')
 
 
 def record(app, env, head):
@@ -204,7 +208,11 @@ def impl_kind(case):
         path = {'ok': '/ok', 'stream': '/stream', 'ctx': '/ctx', 'static': '/static/file.txt', 'static304': '/static/file.txt',
                 'redirect': '/redirect', 'notfound': '/nope', 'wrongmethod': '/postonly', 'boom': '/boom', 'boombraces': '/boombraces', 'ret400braces': '/ret400braces', 'debugboom': '/boom',
                 'meta': '/meta/', 'gzip': '/ok', 'cache': '/ok', 'empty': '/empty', 'ret403': '/ret403', 'reroute': '/reroute',
-                'reroute_raise': '/reroute_raise', 'unicode_header': '/unicode_header'}[kind]
+                'reroute_raise': '/reroute_raise', 'unicode_header': '/unicode_header',
+                # a slash redirect whose path holds control characters (percent-decoded by the server): still a valid header value
+                'slashredirect_ctl': '/files/a\x01b\x1b[31m',
+                # a rewrite-mode application reroutes a path with doubled separators: the environ goes over untouched
+                'reroute_rewrite': '/rr//a///b', 'reroute_raise_rewrite': '/rrr//a///b'}[kind]
         headers = dict(case.get('headers') or {})
         if kind == 'static304':
             headers['If-Modified-Since'] = http_date(1500000000)
